@@ -3,32 +3,36 @@ From Coq Require Import List Arith Bool Lia.
 Import ListNotations.
 Require Import MV.Lower.Lang.
 
+Definition done (o : outcome) : Prop := o <> OFuel /\ o <> OStuck.
+
 Lemma exec_sound n :
-  (forall st s d tr o s' d', exec_stmt n st s d = (tr, o, s', d') -> o <> OFuel -> run_stmt st s d tr o s' d') /\
-  (forall b s d tr o s' d', exec_block n b s d = (tr, o, s', d') -> o <> OFuel -> run_block b s d tr o s' d').
+  (forall st s d tr o s' d', exec_stmt n st s d = (tr, o, s', d') -> done o -> run_stmt st s d tr o s' d') /\
+  (forall b s d tr o s' d', exec_block n b s d = (tr, o, s', d') -> done o -> run_block b s d tr o s' d').
 Proof.
-  induction n as [|n [IHs IHb]]; split; intros x s d tr o s' d' H Ho; simpl in H;
+  induction n as [|n [IHs IHb]]; split; intros x s d tr o s' d' H [Ho Hs]; simpl in H;
     try (injection H as _ <- _ _; congruence).
-  - destruct x as [l|f v|c b1 b2|c body orelse| | |l].
+  - destruct x as [l|f v|c b1 b2|c body orelse| | |l|tb th te tf|wl wb|rl];
+      try (injection H as _ <- _ _; congruence).
     + injection H as <- <- <- <-; constructor.
     + injection H as <- <- <- <-; constructor.
     + destruct (ceval c s d) as [[v tc] d1] eqn:Ec.
       destruct (exec_block n (if v then b1 else b2) s d1) as [[[trb ob] sb] db] eqn:Eb.
-      injection H as <- <- <- <-. eapply RIf; [exact Ec | apply IHb; assumption].
+      injection H as <- <- <- <-. eapply RIf; [exact Ec | apply IHb; [assumption | split; assumption]].
     + destruct (ceval c s d) as [[v tc] d1] eqn:Ec. destruct v.
       * destruct (exec_block n body s d1) as [[[trb ob] s1] d2] eqn:Eb.
-        assert (Nb : ob <> OFuel) by (intros ->; injection H as _ <- _ _; congruence).
+        assert (Nb : done ob) by (split; intros ->; injection H as _ <- _ _; congruence).
         pose proof (IHb _ _ _ _ _ _ _ Eb Nb) as Rb.
         destruct ob.
         -- destruct (exec_stmt n (SWhile c body orelse) s1 d2) as [[[tr2 o2] s2] d3] eqn:E2.
-           injection H as <- <- <- <-. eapply RWhileIter; eauto.
+           injection H as <- <- <- <-. eapply RWhileIter; eauto. apply IHs; [exact E2 | split; assumption].
         -- injection H as <- <- <- <-. eapply RWhileBrk; eauto.
         -- destruct (exec_stmt n (SWhile c body orelse) s1 d2) as [[[tr2 o2] s2] d3] eqn:E2.
-           injection H as <- <- <- <-. eapply RWhileIter; eauto.
+           injection H as <- <- <- <-. eapply RWhileIter; eauto. apply IHs; [exact E2 | split; assumption].
         -- injection H as <- <- <- <-. eapply RWhileRet; eauto.
-        -- congruence.
+        -- destruct Nb; congruence.
+        -- destruct Nb; congruence.
       * destruct (exec_block n orelse s d1) as [[[tro oo] so] do] eqn:Eo.
-        injection H as <- <- <- <-. eapply RWhileEnd; eauto.
+        injection H as <- <- <- <-. eapply RWhileEnd; eauto. apply IHb; [exact Eo | split; assumption].
     + injection H as <- <- <- <-; constructor.
     + injection H as <- <- <- <-; constructor.
     + injection H as <- <- <- <-; constructor.
@@ -38,9 +42,9 @@ Proof.
       assert (D : o1 = ONormal \/ o1 <> ONormal) by (destruct o1; auto; right; discriminate).
       destruct D as [-> | N1].
       * destruct (exec_block n r s1 d1) as [[[tr2 o2] s2] d2] eqn:E2. injection H as <- <- <- <-.
-        eapply RConsN; [apply IHs; [exact E1 | discriminate] | apply IHb; assumption].
+        eapply RConsN; [apply IHs; [exact E1 | split; discriminate] | apply IHb; [assumption | split; assumption]].
       * assert (H' : (tr1, o1, s1, d1) = (tr, o, s', d')) by (destruct o1; try exact H; congruence).
-        injection H' as <- <- <- <-. apply RConsJ; [apply IHs; assumption | exact N1].
+        injection H' as <- <- <- <-. apply RConsJ; [apply IHs; [assumption | split; assumption] | exact N1].
 Qed.
 
 (* running blocks in sequence *)
